@@ -107,13 +107,44 @@ type ZvEmb struct {
 	Y int    `json:"y"`
 }
 
-func (p *ZvLeaf) ZvTag() string { return "zvleaf" }
-func (p *ZvPair) ZvTag() string { return "zvpair" }
-func (p *ZvEmb) ZvTag() string  { return "zvemb" }
-func (p *ZvOdd) ZvTag() string  { return "zvodd" }
-func (p *ZvBox) ZvTag() string  { return "zvbox" }
-func (p *ZvNode) ZvTag() string { return "zvnode" }
-func (p *ZvWrap) ZvTag() string { return "zvwrap" }
+// ZvTower: four levels of anonymous embedding (ZvTower > ZvL2 > ZvL3 > ZvL4);
+// the innermost struct has several fields of one kind, one of another kind and
+// a pointer; every intermediate level has a field of its own.  (The field map
+// of the converter records an embedded PATH per field: paths of length 4 only
+// arise here.)
+type ZvL4 struct {
+	D1 int     `json:"d1"`
+	D2 int     `json:"d2"`
+	DS string  `json:"ds"`
+	D3 int     `json:"d3"`
+	DP *ZvLeaf `json:"dp"`
+}
+
+type ZvL3 struct {
+	ZvL4
+	C1 string `json:"c1"`
+	C2 int    `json:"c2"`
+}
+
+type ZvL2 struct {
+	ZvL3
+	B1 int `json:"b1"`
+}
+
+type ZvTower struct {
+	ZvL2
+	A1  string `json:"a1"`
+	Ref ZvAny  `json:"ref"`
+}
+
+func (p *ZvTower) ZvTag() string { return "zvtower" }
+func (p *ZvLeaf) ZvTag() string  { return "zvleaf" }
+func (p *ZvPair) ZvTag() string  { return "zvpair" }
+func (p *ZvEmb) ZvTag() string   { return "zvemb" }
+func (p *ZvOdd) ZvTag() string   { return "zvodd" }
+func (p *ZvBox) ZvTag() string   { return "zvbox" }
+func (p *ZvNode) ZvTag() string  { return "zvnode" }
+func (p *ZvWrap) ZvTag() string  { return "zvwrap" }
 
 // ZvHost carries the identity methods: (_method host EchoLeaf: r) converts r
 // to its Go struct (the implicit conversion of a method argument) and hands the
@@ -129,6 +160,10 @@ func (h *ZvHost) EchoNode(x *ZvNode) *ZvNode { giLastArg = x; return x }
 func (h *ZvHost) EchoWrap(x *ZvWrap) *ZvWrap { giLastArg = x; return x }
 func (h *ZvHost) EchoPair(x *ZvPair) *ZvPair { giLastArg = x; return x }
 func (h *ZvHost) EchoEmb(x *ZvEmb) *ZvEmb    { giLastArg = x; return x }
+func (h *ZvHost) EchoTower(x *ZvTower) *ZvTower {
+	giLastArg = x
+	return x
+}
 
 // giLastArg is the Go value the last Echo method received (the result of the
 // implicit conversion of the method argument).
@@ -149,6 +184,7 @@ var giTypes = []giTypeInfo{
 	{"zvwrap", "ZvWrap", func() any { return &ZvWrap{} }, "EchoWrap"},
 	{"zvpair", "ZvPair", func() any { return &ZvPair{} }, "EchoPair"},
 	{"zvemb", "ZvEmb", func() any { return &ZvEmb{} }, "EchoEmb"},
+	{"zvtower", "ZvTower", func() any { return &ZvTower{} }, "EchoTower"},
 	{"zvhost", "ZvHost", func() any { return &ZvHost{} }, ""},
 }
 
